@@ -16,7 +16,7 @@ FILES = [('/w/ch0/2020-01-01T00-00-00/rf@%d.000.h5' % (10 + i), (10 + i) * 1000,
 class FakeOS:
     """os stand-in inside the ringbuffer module: records deletions and checks, when a file is deleted, that it is tracked, is the oldest of
     its channel, and that some configured limit is exceeded at that moment"""
-    def __init__(self, h, limits): self.h = h; self.limits = limits; self.deleted = []; self.bad = []
+    def __init__(self, h, limits): self.h = h; self.limits = limits; self.deleted = []; self.bad = []; self.truth = {}
     class _P:
         @staticmethod
         def split(p): i = p.rfind('/'); return p[:i], p[i + 1:]
@@ -25,6 +25,19 @@ class FakeOS:
     path = _P()
     def remove(self, path):
         self.deleted.append(path)
+        # the rule is judged against the TRUTH: the files that really exist (maintained by the harness), not the handler's own books
+        t = self.truth
+        size, count, duration = self.limits
+        if path not in t: self.bad.append('deleted a file that does not exist / is not a reported data file'); return
+        grp = [x for x in FILES if x[0] == path][0][2]
+        mine = sorted((x[1], x[0]) for x in FILES if x[2] == grp and x[0] in t)
+        if mine and mine[0][1] != path: self.bad.append('deleted a file that is not the oldest existing one of its channel')
+        over = False
+        if count is not None and len(mine) > count: over = True
+        if duration is not None and mine and mine[-1][0] - mine[0][0] > duration: over = True
+        if size is not None and sum(t.values()) > size: over = True
+        if not over: self.bad.append('deleted although no limit is exceeded by the files that exist')
+        del t[path]
     def rmdir(self, d): raise OSError('not empty')
 
 
@@ -86,24 +99,40 @@ def _exceeded_any(h, size, count, duration):
     return False
 
 
-def _apply(h, kind, fidx, sz):
+def _apply(h, kind, fidx, sz, fdst=None):
     if fidx == 0: f = FILES[0]
     elif fidx == 1: f = FILES[1]
     elif fidx == 2: f = FILES[2]
     else: f = FILES[3]
     path, key, grp = f
     rec = h.FileRecord(key=key, size=sz, path=path, group=grp)
-    if kind == 0: h._add_record(rec)
-    elif kind == 1: h._modify_record(rec)
-    else: h._remove_record(path)
+    truth = RB.os.truth
+    if kind == 0: truth[path] = sz; h._add_record(rec)
+    elif kind == 1: truth[path] = sz; h._modify_record(rec)
+    elif kind == 2: truth.pop(path, None); h._remove_record(path)
+    else:
+        # moved event: the file was renamed to the name of the next file of the universe (tracked -> tracked rename); delivered through
+        # the real on_moved with the record lookup replaced by the harness table
+        if fdst is None: nf = FILES[(fidx + 1) % 4] if fidx < 3 else FILES[0]
+        elif fdst == 0: nf = FILES[0]
+        elif fdst == 1: nf = FILES[1]
+        elif fdst == 2: nf = FILES[2]
+        else: nf = FILES[3]
+        if path in truth: truth[nf[0]] = truth.pop(path)
+        else: truth[nf[0]] = sz
+        table = {x[0]: h.FileRecord(key=x[1], size=truth.get(x[0], sz), path=x[0], group=x[2]) for x in FILES}
+        h._get_file_record = lambda p: table.get(p) if p in truth else None
+        class Ev: src_path = path; dest_path = nf[0]
+        h.on_moved(Ev)
     return path, grp
 
 
 def _history(size, count, duration, ops):
     h, fos = _mk(size, count, duration)
-    for (k, f, s) in ops:
+    for op in ops:
+        (k, f, s) = op[:3]
         n0 = len(fos.deleted)
-        path, grp = _apply(h, k, f, s)
+        path, grp = _apply(h, k, f, s, op[3] if len(op) > 3 else None)
         if not _state_ok(h, None): return False
         if fos.bad: return False
         # deleted files were tracked data files of the watched tree, and are no longer tracked
@@ -114,6 +143,8 @@ def _history(size, count, duration, ops):
         if k != 2 and not _limits_ok(h, size, count, duration): return False
         # nothing is deleted by a removal notification
         if k == 2 and len(fos.deleted) != n0: return False
+        # the tracked set equals the set of reported files that still exist
+        if sorted(h.records.keys()) != sorted(fos.truth.keys()): return False
     return True
 
 
@@ -277,6 +308,25 @@ def _hist3_all_2_3(size: int, count: int, duration: int, k1: int, f1: int, s1: i
     """
     # all three limits, 3 notifications, the third being remove of file 3
     return _history(size, count, duration, ((k1, f1, s1), (k2, f2, s2), (2, 3, s3)))
+
+
+def _hist_moved(count: int, k1: int, f1: int, f2: int, fm: int, fd: int) -> bool:
+    """
+    pre: 1 <= count <= 3
+    pre: 0 <= k1 <= 1 and 0 <= f1 <= 3 and 0 <= f2 <= 3 and 0 <= fm <= 3 and 0 <= fd <= 3 and fd != fm
+    post: _
+    """
+    # two reports, then a rename of a tracked file to another data-file name (moved event): nothing is deleted unless the files that
+    # really exist exceed the limit, and the books follow the rename
+    return _history(None, count, None, ((k1, f1, 10), (0, f2, 10), (3, fm, 10, fd)))
+
+
+def _hist_moved_size(size: int, f1: int, f2: int, fm: int, fd: int, s1: int, s2: int) -> bool:
+    """
+    pre: 200 <= size <= 400 and 0 <= f1 <= 3 and 0 <= f2 <= 3 and 0 <= fm <= 3 and 0 <= fd <= 3 and fd != fm and 1 <= s1 <= 100 and 1 <= s2 <= 100
+    post: _
+    """
+    return _history(size, None, None, ((0, f1, s1), (0, f2, s2), (3, fm, s2, fd)))
 
 
 def _ring_witness(f1: int, f2: int) -> bool:
